@@ -84,7 +84,9 @@ def repair_num(x):
 
 # hazards of the findings that are still open (F-C17c..g are fixed: nothing of them is repaired, classified or suppressed); F-C17c (917b518), F-C17d (d511a4f) and F-C17e (86ebd6a) are fixed: nothing is repaired or
 # suppressed for them, a recurrence is a plain VIOLATION
-HAZ = {"F-C17a": "num", "F-C17b": "nul"}
+# F-C17h (request body without "attrs": null dereference) is fixed by a049be8: the driver still tags such a crash (grouping), nothing is classified
+HAZ = {"F-C17a": "num", "F-C17b": "nul", "F-C17i": "start"}
+BAD_LOG_DIR = b"/nonexistent-c17/"
 
 
 # Harmless rewrites of the anchored code that must NOT raise an alarm (patches: corpus/C17/negative_controls/*.diff, built as swapped
@@ -106,9 +108,11 @@ class C17(StdCheck):
     required_theorems = ["string_emit_lex_roundtrip", "string_nul_counterexample", "number_emit_denotes_round6",
                          "faithful_number_partial", "number_precision_counterexample",
                          "emit_parse_roundtrip", "no_injection", "create_config_roundtrip", "faithful_attributes_partial",
-                         "emit_parse_roundtrip_witness", "lexer_keyword_key_rejected", "bare_key_is_identifier_witness",
+                         "emit_parse_roundtrip_witness", "lexer_keyword_key_roundtrip", "lexer_keywords_known_to_writer", "bare_key_is_identifier_witness",
                          "create_all_or_nothing_partial", "activate_exception_counterexample",
-                         "delete_removes_object_and_file", "deleted_service_unresolvable_regression", "cyclic_cascade_delete_regression", "refuse_non_api", "cascade_only_when_asked", "unique_names"]
+                         "delete_removes_object_and_file", "deleted_service_unresolvable_regression", "cyclic_cascade_delete_regression", "refuse_non_api", "cascade_only_when_asked", "unique_names",
+                         "delete_only_removes", "cascade_removes_children", "generated_children_not_runtime",
+                         "escapeName_injective", "confPath_injective", "confPath_in_type_dir"]
     technique = ("Lean 4 proof over a hand-written model of ConfigWriter, the config lexer/parser fragment and the create/delete state machine "
                  "(emit/parse round trip by mutual induction over the value tree and the statement list, invariant by induction over "
                  "operation sequences, kernel-evaluated counterexamples for the open defects); correspondence by differential execution of "
@@ -117,27 +121,45 @@ class C17(StdCheck):
                  "the model's, and the model's parser reading the real text")
     level_text = ("Machine-checked: every NUL-free byte string survives EmitString -> string-literal lexer unchanged with the literal ending "
                   "exactly at the writer's closing quote; numbers are written rounded to six fractional digits (exact iff <= 6 digits); create is "
-                  "all-or-nothing for every injected fault except an exception out of ActivateItems; delete removes object, item and file, "
-                  "refuses non-API objects, removes nothing else without cascade; names stay unique over every create/delete sequence. "
-                  "emit_parse_roundtrip/no_injection: for every type, name, template list and attribute dictionary (NUL-free strings, nested keys "
-                  "other than `in`/`debugger`) the generated text parses back to exactly one object statement assigning exactly the supplied paths; "
-                  "the same structure check runs on every real generated text (spec clause structure_preserved). The same specification predicate "
-                  "is evaluated on the implementation's own observations (objects with content hashes, items, files, global namespace hash).")
+                  "all-or-nothing for every injected fault except an exception out of ActivateItems (F-C17i: reproduced on the real code, a FileLogger "
+                  "whose Start() throws stays behind); delete removes object, item and file, refuses non-API objects, removes nothing else without "
+                  "cascade, only ever removes (objects, items, files afterwards are sub-lists of those before, cycles included), and a cascading "
+                  "delete always succeeds and removes every direct dependent (the transitive closure is demanded of the implementation's trace by "
+                  "spec clause cascade_complete, not proved of the model); what apply rules generate as a side effect of a create never carries "
+                  "the _api package; names stay unique over every create/delete sequence. EscapeName is injective and slash-free for every name, "
+                  "hence the file of a runtime object is distinct for distinct names of one type and lies directly in the type's directory "
+                  "(spec clause file_where_expected compares the real file path with the modelled ComputeNewObjectConfigPath). "
+                  "emit_parse_roundtrip/no_injection: for every type, name, template list and attribute dictionary (NUL-free strings; no other condition: every "
+                  "lexer keyword, incl. `in` and `debugger` since 3c83e1d, is in the writer's list, lexer_keywords_known_to_writer) the generated text parses back to exactly one object statement assigning exactly the supplied paths; "
+                  "the same structure check runs on every real generated text, also of creates that fail afterwards (spec clause structure_preserved). The same specification predicate "
+                  "is evaluated on the implementation's own observations (objects with content hashes and whether a lookup by name finds them, items, "
+                  "files, global namespace hash): besides the clauses above, registered_by_name (every listed object is found under its name, "
+                  "before and after every call, failed ones included), generated_not_runtime (side effects of a create are not runtime objects), "
+                  "refuse_non_api judged by the HISTORY (an object no create call produced must be refused), cascade_complete (every transitive "
+                  "dependent, and the item and file of every object that went, are gone), no_crash.")
     level_note = ("Trusted: Lean kernel (+ propext, Classical.choice, Quot.sound), harness/driver, libc printf/strtod (the driver recomputes "
-                  "nearest-binary64), the outcome of compile/commit/activate is an oracle input (fault injection in the model). Known findings "
-                  "F-C17a..e are reported as KNOWN-FINDING by a classifier that repairs the recorded hazard in the minimised witness and "
-                  "re-runs it: only failures that vanish after the repair are attributed to the finding. The harness does not read message texts "
+                  "nearest-binary64), the outcome of compile/commit/activate is an oracle input (fault injection in the model; a failed call that "
+                  "left the object behind is replayed as the fault activateThrows). The open findings F-C17a (number precision), F-C17b (NUL) "
+                  "and F-C17i (Start() throws: committed object left behind) are reported as KNOWN-FINDING by a classifier that repairs the recorded hazard in the "
+                  "minimised witness and re-runs it: only failures that vanish after the repair are attributed to the finding; the driver tags the "
+                  "clause with the hazards present in the failing line so that a known hazard cannot use up the per-clause shrink budget of an "
+                  "unrelated failure. The harness does not read message texts "
                   "or private members; five negative controls (NEGATIVE_CONTROLS in checks/c17.py: formatting, refactoring, message texts, "
                   "iteration order, equivalent re-implementations of the writer) pass the whole flow, six seeded defects are reported.")
     trusted_base = [
-        "modelled, not verified: type validation, template import, apply rules, cluster sync of created objects; the HTTP handlers are driven (about 12 % of the operations) but not modelled beyond the calls they make",
+        "not modelled (their outcome is read from the implementation): type validation, template import, apply rules, cluster sync of created objects; the HTTP handlers are driven (about 13 % of the operations, incl. request bodies without an attrs member) but not modelled beyond the calls they make",
+        "the model's object list is its registry: the lookup-by-name consistency (registered_by_name) is checked on the implementation's trace only; the SHA1 of a truncated Comment/Downtime file name is an oracle (prefix, length and alphabet are checked)",
+        "never driven: ConfigUpdateObject/ConfigDeleteObject (cluster peers), Comment::AddComment/Downtime::AddDowntime, DELETE with a filter / several targets",
         "parameters: glibc printf(\"%.6f\") = exact round-half-even, strtod = nearest binary64 (recomputed in the driver)",
         "the model's parser accepts exactly the writer's fragment; any other token makes it reject (counted as structure_preserved failure)",
     ]
-    assumptions = ["DependencyGraph parents of a created object are read from the implementation (oracle)",
-                   "file path of a created object is read from the implementation (oracle)"]
-    rule = ("seeded generator: cases of 4-10 create/delete operations over 17 object types and a small name pool (duplicates, dependents, "
-            "cascade, static non-API objects, invalid attributes, ignore_on_error, templates); names/keys/values biased towards quotes, "
+    assumptions = ["DependencyGraph parents/children of a created object are read from the implementation (oracle)",
+                   "file path of a created object: read from the implementation and compared with the modelled path (spec clause file_where_expected); "
+                   "create_all_or_nothing_partial still takes the path as a parameter with the hypothesis that it is fresh (confPath_injective is the reason it is, "
+                   "the invariant linking files to live objects along run is not proved)"]
+    rule = ("seeded generator: cases of 4-10 create/delete operations over 18 object types and a small name pool (duplicates, dependents, "
+            "cascade, static non-API objects, invalid attributes, ignore_on_error, templates, composite names with a surplus '!' part that collide with an "
+            "existing object, FileLogger (a type whose Start() can throw), request bodies without attrs); names/keys/values biased towards quotes, "
             "backslashes, line breaks, comment markers, }}}, $, keyword-like/dotted/multi-line keys, NUL, deep nesting, numbers of all magnitudes. "
             "evaluations = create + delete calls; non-trivial case = one that exercised a refused or cascading delete")
 
@@ -149,11 +171,26 @@ class C17(StdCheck):
     def _repaired(self, line):
         """the create line with every recorded hazard repaired; returns (line, set of hazards that were present)"""
         w = line.split(" | ")[0].split()
+        if len(w) > 2 and w[0] == "X":      # the operation the worker died in
+            w = w[2:]
         if len(w) not in (6, 7) or w[0] != "create":
-            return line.split(" | ")[0], set()
+            return " ".join(w), set()
         found = set()
         tm, _ = dec_v(w[4])
         at, _ = dec_v(w[5])
+        if len(w) == 7 and w[6] == "httpn":
+            # F-C17h: the same request with an (empty) "attrs" member
+            found.add("noattrs")
+            w[6] = "http"
+        if w[1] == "FileLogger":
+            # F-C17i: the same logger writing to a file that can be opened
+            fixed_at = []
+            for k, v in at[1]:
+                if k == b"path" and isinstance(v, bytes) and v.startswith(BAD_LOG_DIR):
+                    found.add("start")
+                    v = b"/dev/null"
+                fixed_at.append((k, v))
+            at = ("d", fixed_at)
 
         def fs(b):
             if b"\0" in b:
@@ -169,6 +206,9 @@ class C17(StdCheck):
         def fk(k):
             return fs(k)
 
+        if w[2] != "-":
+            nm = fs(bytes.fromhex(w[2]))
+            w[2] = nm.hex() if nm else "-"
         at2 = walk(at, fs, fn, fk)
         at2 = ("d", [(fs(k), v) for k, v in at2[1]])
         good_t = [fs(t) if isinstance(t, bytes) else t for t in tm[1]]
